@@ -401,14 +401,14 @@ type putEntry struct {
 }
 
 type charOp struct {
-	Kind  string // "u" update, "g" get, "p" put
-	Fc    bool   // from a connection
-	Cp    bool   // checkPerms
-	HasV  bool   // g: a get function is registered
-	V     interface{}
-	HasG  bool // u, p: a get function (returning G) is registered while the write is made; a write does not consult it
-	G     interface{}
-	Puts  []putEntry
+	Kind string // "u" update, "g" get, "p" put
+	Fc   bool   // from a connection
+	Cp   bool   // checkPerms
+	HasV bool   // g: a get function is registered
+	V    interface{}
+	HasG bool // u, p: a get function (returning G) is registered while the write is made; a write does not consult it
+	G    interface{}
+	Puts []putEntry
 }
 
 func bit(b bool) string {
@@ -800,7 +800,9 @@ func runCharCase(cc *charCase, ops []charOp, put putRunner) []*stepObs {
 	c := cc.C
 	var cbs []cbRec
 	c.OnValueUpdate(func(_ *characteristic.Characteristic, n, o interface{}) { cbs = append(cbs, cbRec{false, n, o}) })
-	c.OnValueUpdateFromConn(func(_ net.Conn, _ *characteristic.Characteristic, n, o interface{}) { cbs = append(cbs, cbRec{true, n, o}) })
+	c.OnValueUpdateFromConn(func(_ net.Conn, _ *characteristic.Characteristic, n, o interface{}) {
+		cbs = append(cbs, cbRec{true, n, o})
+	})
 	switch cc.Tcb {
 	case "int":
 		(&characteristic.Int{Characteristic: c}).OnValueRemoteUpdate(func(int) {})
@@ -938,4 +940,3 @@ func checkCtorTable(c *Ctx) {
 	}
 	c.Extra("constructors", len(names))
 }
-
